@@ -120,9 +120,13 @@ def KktSys.solve (S : KktSys α) (lhs rhs : Vars α) (data : ProblemData α) (va
   pure (true, { x := dx, s := ds, z := dz, τ := dτ, κ := dκ },
         { S with x1, z1, workx := ξm })
 
-/-- `solve_initial_point(variables, data, settings)`: `(is_success, variables, system)` -/
+/-- `solve_initial_point(variables, data, settings)`: `(is_success, variables, system)`.
+`variables.x/s/z` are zero-filled first (a failed linear solve leaves its outputs untouched),
+so the incoming contents of the three vectors are never read — only their lengths. -/
 def KktSys.solveInitialPoint (S : KktSys α) (vars : Vars α) (data : ProblemData α)
     (st : LinSettings α) : MErr (Bool × Vars α × KktSys α) := do
+  let vars := { vars with x := vars.x.map (fun _ => (0 : α)), s := vars.s.map (fun _ => (0 : α)),
+                          z := vars.z.map (fun _ => (0 : α)) }
   if data.P.nnz == 0 then
     -- LP initialization: rhs [0; b] → (x, −s)
     let workx := S.workx.map (fun _ => (0 : α))
